@@ -667,6 +667,13 @@ func (c *Ctx) Script(asserts []*Term, extra []string, getModel []*Term) string {
 			for _, v := range t.Args[:nv] {
 				fmt.Fprintf(&b, "(%s %s)", v.Op, v.Sort)
 			}
+			if len(t.Args) == nv+1 {
+				// no pattern was found: a plain quantifier ("(! body)" without attributes is not valid SMT-LIB)
+				b.WriteString(") ")
+				b.WriteString(render(t.Args[nv]))
+				b.WriteByte(')')
+				return b.String()
+			}
 			b.WriteString(") (! ")
 			b.WriteString(render(t.Args[nv]))
 			for _, p := range t.Args[nv+1:] {
